@@ -181,12 +181,14 @@ type world struct {
 	stopErr   error
 	// connections that had an open but no close notification when the stopping call returned
 	missingAtReturn []string
+	// descriptors the harness kept for itself
+	ownFD map[int]bool
 }
 
 func newWorld(family string, isHTTP bool) *world {
 	v := &verdict{family: family, http: isHTTP, counters: map[string]int{}}
 	lastV = v
-	return &world{v: v, by: map[*nbio.Conn]*connInfo{}, lt: &latch{}}
+	return &world{v: v, by: map[*nbio.Conn]*connInfo{}, lt: &latch{}, ownFD: map[int]bool{}}
 }
 
 func (w *world) tick(kind uint64) {
@@ -213,6 +215,35 @@ func (w *world) newStream(origin string, sndCap int) *connInfo {
 	ci := w.info(c, origin)
 	ci.peer = peer
 	return ci
+}
+
+// userThread runs a user-level call racing with Stop on its own thread; a panic that escapes the
+// call is a failure of its own (vkit would only report the coarse signature "panic").
+func (w *world) userThread(name, what string, fn func()) {
+	vsched.GoNamed(name, func() {
+		defer func() {
+			if vsched.Aborting() {
+				return
+			}
+			if r := recover(); r != nil {
+				w.fail("user-call-panicked %s|%s panicked: %v", w.v.family, what, r)
+				w.tick(40)
+			}
+		}()
+		fn()
+	})
+}
+
+// afterReturn tells a user-level racer that the stopping call has already returned: a call that
+// only starts then is not "racing with Stop" (using a stopped engine is the caller's error) and
+// is skipped. The read is a recorded step; no scheduling point lies between it and the call.
+func (w *world) afterReturn() bool {
+	w.tick(41)
+	if w.v.stopReturned {
+		w.v.counters["user_call_skipped_after_return"]++
+		return true
+	}
+	return false
 }
 
 // maybePark parks the calling callback on the latch if the scenario asked for it.
@@ -309,6 +340,9 @@ func (w *world) quiescenceOracle(lns []*fakeListener, epfds, evtfds []int, extra
 	for k := range extraOwned {
 		owned[k] = true
 	}
+	for k := range w.ownFD {
+		owned[k] = true
+	}
 	for _, l := range lns {
 		for _, c := range l.q {
 			owned[c.VerifFD()] = true
@@ -346,7 +380,8 @@ func (w *world) quiescenceOracle(lns []*fakeListener, epfds, evtfds []int, extra
 			}
 		}
 		for _, ci := range w.conns {
-			if ci.fd == fd && (kind == "sock" || kind == "dgram") {
+			// descriptor numbers are reused: only a connection that nbio has not closed owns fd
+			if cl, _ := ci.c.IsClosed(); ci.fd == fd && !cl && (kind == "sock" || kind == "dgram") {
 				what += fmt.Sprintf("(%s connection, opens=%d closes=%d)", ci.origin, ci.opens, ci.closes)
 				kind = "sock " + ci.origin
 			}
@@ -375,9 +410,17 @@ func (w *world) quiescenceOracle(lns []*fakeListener, epfds, evtfds []int, extra
 		for s := range sigs {
 			ss = append(ss, s)
 		}
-		sort.Strings(ss)
+		// one component names the signature (combinations would multiply the signatures): any
+		// other kind goes before the ubiquitous eventfd write of the stopping thread
+		sort.Slice(ss, func(i, j int) bool {
+			ei, ej := ss[i] == evtfdSig, ss[j] == evtfdSig
+			if ei != ej {
+				return ej
+			}
+			return ss[i] < ss[j]
+		})
 		// judged last (see check): it must not hide another failure of the same execution
-		v.badfd = fmt.Sprintf("closed-fd-syscall %s|system call(s) on a closed descriptor number (fd-reuse hazard): %v", strings.Join(ss, "; "), bad)
+		v.badfd = fmt.Sprintf("closed-fd-syscall %s|system call(s) on a closed descriptor number (fd-reuse hazard): %v", ss[0], bad)
 	}
 	for _, e := range vkit.Log.TakeErrors() {
 		if strings.Contains(e, "call failed") || strings.Contains(e, "execute failed") || strings.Contains(e, "execute ParserCloser failed") {
@@ -385,6 +428,8 @@ func (w *world) quiescenceOracle(lns []*fakeListener, epfds, evtfds []int, extra
 		}
 	}
 }
+
+const evtfdSig = "write eventfd by stopping-thread"
 
 func firstLine(s string) string {
 	if i := strings.IndexByte(s, '\n'); i >= 0 {
@@ -468,10 +513,12 @@ func coreBody(c ccfg) func() {
 			vsched.Point()
 		})
 		g.OnClose(func(cc *nbio.Conn, err error) {
+			// a point before the notification is counted: "the callback has been invoked but has
+			// not done anything yet" must be separable from whatever released Stop
+			vsched.Point()
 			ci := w.info(cc, "unknown")
 			ci.closes++
 			w.tick(2)
-			vsched.Point()
 		})
 		g.OnData(func(cc *nbio.Conn, data []byte) {
 			w.dataCalls++
@@ -640,7 +687,11 @@ func coreBody(c ccfg) func() {
 			vsched.GoNamed("h.clock", func() { vsched.Point(); vtime.FireNext() })
 		case "addconn":
 			late = w.newStream("late-add", 64)
-			vsched.GoNamed("h.user", func() {
+			w.userThread("h.user", "AddConn", func() {
+				if w.afterReturn() {
+					w.ownFD[late.fd] = true // never given to the engine
+					return
+				}
 				_, err := g.AddConn(late.c)
 				if err != nil {
 					v.counters["late_add_rejected"]++
@@ -648,7 +699,10 @@ func coreBody(c ccfg) func() {
 				w.tick(6)
 			})
 		case "dial":
-			vsched.GoNamed("h.user", func() {
+			w.userThread("h.user", "DialAsync", func() {
+				if w.afterReturn() {
+					return
+				}
 				err := g.DialAsync("tcp", "127.0.0.1:9", dialCB)
 				if err != nil {
 					v.counters["late_dial_rejected"]++
@@ -656,7 +710,10 @@ func coreBody(c ccfg) func() {
 				w.tick(7)
 			})
 		case "write":
-			vsched.GoNamed("h.user", func() {
+			w.userThread("h.user", "Write", func() {
+				if w.afterReturn() {
+					return
+				}
 				_, err := target.c.Write(make([]byte, 5))
 				if err != nil {
 					v.counters["late_write_rejected"]++
@@ -743,12 +800,16 @@ type hcfg struct {
 	hist   []string // inject | accept | request | partial
 	racer  string   // none | accept | close | fin | request | blocked
 	stop   string
+	client bool // keep the client executor pool (SupportServerOnly=false, the default)
 	p      int
 	noc    bool
 }
 
 func (c hcfg) name() string {
 	s := fmt.Sprintf("http %s exec=%s io=%s listen=%v hist=%s racer=%s %s P=%d", c.mode, c.exec, c.iomod, c.listen, strings.Join(c.hist, "+"), c.racer, c.stop, c.p)
+	if c.client {
+		s += " clientpool"
+	}
 	if c.noc {
 		s += " nocache"
 	}
@@ -761,7 +822,11 @@ func httpBody(c hcfg) func() {
 	return func() {
 		vsys.Configure(false, false)
 		_ = vkit.Log.TakeErrors()
-		w := newWorld("http "+families[c.racer], true)
+		fam := "http "
+		if c.exec == "inline" {
+			fam = "http/inline-executor "
+		}
+		w := newWorld(fam+families[c.racer], true)
 		v := w.v
 		defer func() { v.complete = true }()
 		tr := track.New(track.Exact)
@@ -769,7 +834,7 @@ func httpBody(c hcfg) func() {
 		mempool.DefaultMemPool = tr
 		vsched.OnCleanup(func() { mempool.DefaultMemPool = saved })
 		handled := 0
-		conf := nbhttp.Config{Name: "c18h", NPoller: 1, ReadBufferSize: 64, BodyAllocator: tr,
+		conf := nbhttp.Config{Name: "c18h", NPoller: 1, ReadBufferSize: 64, BodyAllocator: tr, SupportServerOnly: !c.client,
 			Handler: http.HandlerFunc(func(rw http.ResponseWriter, r *http.Request) {
 				handled++
 				w.tick(10)
@@ -943,12 +1008,14 @@ func httpBody(c hcfg) func() {
 		}
 		w.quiescenceOracle(lns, epfds, evtfds, extraOwned)
 		if v.stopReturned {
+			// HTTP-level bookkeeping after the stop: observed, not judged (the statement asks for
+			// closed connections and the core engine's notifications; see the final report)
 			if n := e.Online() + e.DialerOnline(); n != 0 {
-				w.fail("http-conn-table-not-empty %s|at quiescence after the stopping call returned the HTTP engine still lists %d connection(s) as online", v.family, n)
+				v.counters["http_online_table_not_empty_after_stop"]++
 			}
 			for _, ci := range w.conns {
 				if ci.httpOn > 0 && ci.httpOff == 0 {
-					w.fail("http-close-notification-missing %s|at quiescence the HTTP connection fd=%d was reported open but never reported closed", v.family, ci.fd)
+					v.counters["http_onclose_never_delivered_after_stop"]++
 				}
 			}
 		}
@@ -985,12 +1052,20 @@ func check(r *vsched.Result) string {
 	var engineLeft, engineLeftSig []string
 	var all []string
 	harnessStuck := ""
+	stopperWhy := ""
 	coreStopThread := false
 	for _, b := range r.Blocked {
+		// only the kind of wait goes into signatures (replays add the mutex owner to Why)
+		whyKind := b.Why
+		if i := strings.IndexByte(whyKind, ' '); i >= 0 {
+			whyKind = whyKind[:i]
+		}
 		all = append(all, fmt.Sprintf("%s(%s)", b.Name, b.Why))
 		if strings.HasPrefix(b.Name, "h.") || b.Name == "main" {
 			if b.Name != "h.stopper" {
 				harnessStuck = fmt.Sprintf("%s(%s)", b.Name, b.Why)
+			} else {
+				stopperWhy = whyKind
 			}
 			continue
 		}
@@ -998,7 +1073,7 @@ func check(r *vsched.Result) string {
 			coreStopThread = true
 		}
 		engineLeft = append(engineLeft, fmt.Sprintf("%s(%s)", b.Name, b.Why))
-		engineLeftSig = append(engineLeftSig, fmt.Sprintf("%s(%s)", lineSuffix(b.Name), b.Why))
+		engineLeftSig = append(engineLeftSig, fmt.Sprintf("%s(%s)", lineSuffix(b.Name), whyKind))
 	}
 	for _, f := range v.fails {
 		if strings.HasPrefix(f, "harness|") {
@@ -1013,7 +1088,7 @@ func check(r *vsched.Result) string {
 		switch {
 		case v.onStopCalled:
 			phase = "Engine.Wait"
-		case v.http && !coreStopThread && strings.Contains(strings.Join(all, " "), "h.stopper(chan)"):
+		case v.http && !coreStopThread && stopperWhy == "chan":
 			phase = "http-shutdown-poll-loop"
 		}
 		return fmt.Sprintf("stop-hangs %s %s|the stopping call never returned (phase: %s); blocked threads at the end: %v; %s", phase, v.family, phase, all, v.info)
@@ -1047,6 +1122,78 @@ func dedup(s []string) []string {
 // ---------------------------------------------------------------------------------------------
 // scenario matrix
 
+type ecfg struct {
+	mode ekit.Mode
+	np   int
+	read string
+}
+
+type ccase struct {
+	hist  []string
+	racer string
+	nl    int
+}
+
+type hcase struct {
+	hist   []string
+	racer  string
+	listen bool
+}
+
+func h(ev ...string) []string { return ev }
+
+var (
+	cheapE = []ecfg{{ekit.LT, 1, "sync"}, {ekit.ET, 1, "sync"}, {ekit.ONESHOT, 1, "sync"}, {ekit.ET, 1, "go"}, {ekit.ET, 1, "inline"}, {ekit.ONESHOT, 1, "go"}}
+	midE   = []ecfg{{ekit.LT, 2, "sync"}}
+	heavyE = []ecfg{{ekit.ET, 1, "pool"}, {ekit.ONESHOT, 1, "pool"}, {ekit.ET, 2, "pool"}}
+	fewE   = []ecfg{{ekit.LT, 1, "sync"}, {ekit.ET, 1, "go"}, {ekit.ONESHOT, 1, "sync"}}
+
+	singles = []ccase{
+		{nil, "none", 0}, {nil, "none", 1}, {nil, "none", 2}, {nil, "accept", 1}, {nil, "addconn", 0}, {nil, "dial", 0},
+		{h("accept"), "none", 1}, {h("accept"), "accept", 1}, {h("accept"), "close", 1}, {h("accept"), "fin", 1},
+		{h("accept"), "data", 1}, {h("accept"), "blocked", 1},
+		{h("add"), "none", 0}, {h("add"), "close", 0}, {h("add"), "fin", 0}, {h("add"), "data", 0},
+		{h("add"), "blocked", 0}, {h("add"), "write", 0}, {h("add"), "addconn", 0},
+		{h("backlog"), "none", 0}, {h("backlog"), "close", 0}, {h("backlog"), "fin", 0}, {h("backlog"), "write", 0},
+		{h("deadline"), "none", 0}, {h("deadline"), "fire", 0}, {h("deadline"), "close", 0},
+		{h("dialpend"), "none", 0}, {h("dialpend"), "resolve", 0}, {h("dialpend"), "refuse", 0},
+		{h("dialto"), "none", 0}, {h("dialto"), "resolve", 0}, {h("dialto"), "fire", 0},
+		{h("dialok"), "none", 0}, {h("dialok"), "close", 0}, {h("dialok"), "fin", 0}, {h("dialok"), "data", 0},
+		{h("udp"), "none", 0}, {h("udp"), "udpdata", 0},
+	}
+	extraSingles = []ccase{{h("add"), "blocked-race", 0}, {h("accept"), "blocked-race", 1}, {h("dialok"), "blocked", 0}, {h("backlog"), "blocked-race", 0}}
+	doubles = []ccase{
+		{h("accept", "accept"), "none", 2}, {h("accept", "accept"), "accept", 2}, {h("accept", "add"), "accept", 1}, {h("accept", "add"), "fin", 1},
+		{h("add", "add"), "close", 0}, {h("add", "add"), "none", 0}, {h("backlog", "deadline"), "fire", 0}, {h("backlog", "deadline"), "none", 0},
+		{h("dialpend", "accept"), "resolve", 1}, {h("dialpend", "accept"), "accept", 1}, {h("udp", "add"), "udpdata", 0}, {h("udp", "add"), "fin", 0},
+		{h("dialok", "backlog"), "fin", 0}, {h("add", "dialto"), "fire", 0}, {h("add", "dialto"), "close", 0}, {h("accept", "udp"), "none", 1},
+		{h("dialto", "deadline"), "none", 0}, {h("add", "dialpend"), "dial", 0}, {h("backlog", "add"), "blocked", 0},
+	}
+	triples = []ccase{
+		{h("accept", "add", "dialpend"), "accept", 1}, {h("accept", "add", "dialpend"), "resolve", 1}, {h("accept", "add", "dialpend"), "close", 1},
+		{h("backlog", "deadline", "udp"), "fire", 0}, {h("backlog", "deadline", "udp"), "udpdata", 0}, {h("backlog", "deadline", "udp"), "none", 0},
+		{h("accept", "accept", "add"), "accept", 2}, {h("accept", "accept", "add"), "fin", 2},
+		{h("dialok", "dialto", "add"), "fire", 0}, {h("dialok", "dialto", "add"), "data", 0}, {h("dialok", "dialto", "add"), "none", 0},
+		{h("add", "backlog", "dialpend"), "write", 0}, {h("udp", "accept", "deadline"), "accept", 1}, {h("add", "add", "add"), "blocked", 0},
+	}
+	shutdownCases = []ccase{
+		{nil, "none", 1}, {h("accept"), "none", 1}, {h("accept"), "accept", 1}, {h("add"), "fin", 0}, {h("add"), "blocked", 0},
+		{h("backlog"), "close", 0}, {h("dialpend"), "resolve", 0}, {h("udp"), "udpdata", 0}, {h("deadline"), "fire", 0}, {nil, "accept", 1},
+	}
+
+	hsingles = []hcase{
+		{nil, "none", false}, {nil, "none", true}, {nil, "accept", true},
+		{h("inject"), "none", false}, {h("inject"), "close", false}, {h("inject"), "fin", false}, {h("inject"), "request", false}, {h("inject"), "blocked", false},
+		{h("accept"), "none", true}, {h("accept"), "request", true}, {h("accept"), "close", true},
+		{h("request"), "none", false}, {h("request"), "request", false}, {h("request"), "fin", false}, {h("request"), "blocked", false},
+		{h("partial"), "none", false}, {h("partial"), "fin", false}, {h("partial"), "request", false},
+	}
+	// two HTTP connections: only with plain Stop (Shutdown ranges over the connection map)
+	hdoubles = []hcase{
+		{h("accept"), "accept", true}, {h("inject", "request"), "request", false}, {h("accept", "inject"), "fin", true}, {h("request", "partial"), "close", false},
+	}
+)
+
 func build(tier string) []*vkit.Scenario {
 	thorough := tier == "thorough"
 	var out []*vkit.Scenario
@@ -1061,11 +1208,85 @@ func build(tier string) []*vkit.Scenario {
 			Counters: func() map[string]int { return lastV.counters }, Outcome: func() string { return lastV.outcome },
 			NonTrivial: func(m map[string]int) bool { return m["stop_started"] > 0 }})
 	}
-	addCore := func(c ccfg) { add(c.name(), coreBody(c), c.p, c.noc) }
-	addHTTP := func(c hcfg) { add(c.name(), httpBody(c), c.p, c.noc) }
-	_ = thorough
-	_ = addHTTP
-	addCore(ccfg{mode: ekit.LT, np: 1, nl: 1, read: "sync", hist: nil, racer: "none", stop: "stop", p: 2})
+	core := func(es []ecfg, cs []ccase, stop string, p int, noc bool) {
+		for _, e := range es {
+			for _, c := range cs {
+				cc := ccfg{mode: e.mode, np: e.np, nl: c.nl, read: e.read, hist: c.hist, racer: c.racer, stop: stop, p: p, noc: noc}
+				add(cc.name(), coreBody(cc), p, noc)
+			}
+		}
+	}
+	type hexec struct {
+		mode   ekit.Mode
+		exec   string
+		client bool
+	}
+	httpS := func(es []hexec, cs []hcase, iomod, stop string, p int, noc bool) {
+		for _, e := range es {
+			for _, c := range cs {
+				hc := hcfg{mode: e.mode, exec: e.exec, iomod: iomod, listen: c.listen, hist: c.hist, racer: c.racer, stop: stop, client: e.client, p: p, noc: noc}
+				add(hc.name(), httpBody(hc), p, noc)
+			}
+		}
+	}
+	hCheap := []hexec{{ekit.LT, "inline", false}, {ekit.LT, "go", false}, {ekit.ET, "go", false}, {ekit.ONESHOT, "inline", false}}
+	hPool := []hexec{{ekit.LT, "pool", true}}
+	hOther := []hexec{{ekit.ET, "inline", false}, {ekit.ONESHOT, "go", false}, {ekit.LT, "go", true}}
+	mixedCases := []hcase{{nil, "none", true}, {nil, "accept", true}, {h("accept"), "none", true}}
+	poolQuick := []hcase{{nil, "none", false}, {nil, "none", true}, {h("inject"), "none", false}, {h("inject"), "blocked", false}, {h("request"), "none", false}, {h("accept"), "none", true}}
+	if !thorough {
+		core(cheapE, singles, "stop", 2, false)
+		core(midE, singles, "stop", 2, false)
+		core(heavyE, singles, "stop", 1, false)
+		core(fewE, doubles, "stop", 2, false)
+		core(fewE[:2], shutdownCases, "shutdown-bg", 2, false)
+		core(fewE[:2], shutdownCases, "shutdown-ctx", 2, false)
+		core(fewE, singles, "stop", 1, true)
+		var light []ccase
+		for _, c := range singles {
+			if !(len(c.hist) == 1 && c.hist[0] == "accept" && (c.racer == "fin" || c.racer == "data")) {
+				light = append(light, c)
+			}
+		}
+		core(fewE[:1], light, "stop", 2, true)
+		httpS(hCheap, hsingles, "nb", "stop", 2, false)
+		httpS(hCheap, hsingles, "nb", "shutdown-bg", 2, false)
+		httpS(hCheap[:2], hsingles[:8], "nb", "shutdown-ctx", 2, false)
+		httpS(hCheap[:2], hdoubles, "nb", "stop", 1, false)
+		httpS(hPool, poolQuick, "nb", "stop", 1, false)
+		httpS(hPool, poolQuick, "nb", "shutdown-bg", 1, false)
+		httpS(hCheap[1:2], mixedCases, "mixed", "stop", 0, false)
+		httpS(hCheap[1:2], mixedCases, "mixed", "shutdown-bg", 0, false)
+		httpS(hCheap[:2], hsingles, "nb", "stop", 1, true)
+		return out
+	}
+	core(cheapE, singles, "stop", 3, false)
+	core(cheapE, extraSingles, "stop", 3, false)
+	core(midE, singles, "stop", 3, false)
+	core(heavyE, singles, "stop", 2, false)
+	core(cheapE, doubles, "stop", 3, false)
+	core(midE, doubles, "stop", 2, false)
+	core(heavyE[:2], doubles, "stop", 2, false)
+	core(fewE, triples, "stop", 3, false)
+	core(midE, triples, "stop", 2, false)
+	core(heavyE[:1], triples, "stop", 2, false)
+	core(cheapE, shutdownCases, "shutdown-bg", 3, false)
+	core(cheapE, shutdownCases, "shutdown-ctx", 3, false)
+	core(cheapE, singles, "stop", 2, true)
+	core(midE, singles, "stop", 1, true)
+	core(fewE, doubles, "stop", 1, true)
+	allH := append(append([]hexec{}, hCheap...), hOther...)
+	httpS(allH, hsingles, "nb", "stop", 3, false)
+	httpS(allH, hsingles, "nb", "shutdown-bg", 3, false)
+	httpS(allH, hsingles, "nb", "shutdown-ctx", 2, false)
+	httpS(allH, hdoubles, "nb", "stop", 3, false)
+	httpS(hPool, hsingles, "nb", "stop", 2, false)
+	httpS(hPool, hsingles, "nb", "shutdown-bg", 2, false)
+	httpS(hPool, hdoubles, "nb", "stop", 2, false)
+	httpS(hCheap[1:2], mixedCases, "mixed", "stop", 2, false)
+	httpS(hCheap[1:2], mixedCases, "mixed", "shutdown-bg", 2, false)
+	httpS(hPool, mixedCases[:2], "mixed", "stop", 1, false)
+	httpS(hCheap, hsingles, "nb", "stop", 2, true)
 	return out
 }
 
